@@ -1784,3 +1784,23 @@ META = {
     'technique': 'abstract replay of configuration constructors over evaluated resource constants; finite table comparison '
                  'with re-stated binding / key-normalisation / query-normalisation rules; wiring normal forms',
 }
+
+
+# generic rules (lead): cross-cutting necessary conditions scoped to the number-with-unit package (sa/generic.py)
+
+def _generic_rules(chk):
+    from ..index import get_index as _gi
+    from ..consteval import Resources as _Res
+    from .. import generic as _g
+    idx_ = _gi()
+    _g.rule_group_names(chk, idx_, _Res(idx_), 'C05.groups', 'recognizers_number_with_unit', None, floor=0)
+    _g.rule_filter_predicates(chk, idx_, 'C05.filters', 'recognizers_number_with_unit', floor=1)
+    _g.rule_index_guards(chk, idx_, 'C05.index-guards', 'recognizers_number_with_unit', floor=2)
+
+
+_run_before_generic = run
+
+
+def run(chk):       # noqa: F811
+    _run_before_generic(chk)
+    _generic_rules(chk)
